@@ -321,7 +321,7 @@ def check(pid, tier, seed, plan):
         run.ob("mir-dump", "inconclusive", reason=str(e)[-800:])
         return run
     run.ob("mir-dump", "pass", wall_s=mir_s, engine="rustc nightly -Zunpretty=mir", note="%d functions parsed" % len(funcs), nonvacuous=True)
-    timeout = 600 if tier == "quick" else 5400
+    timeout = 1500 if tier == "quick" else 5400
     scen = plan["scenarios"][tier]
     results = run_scenarios(funcs, scen, timeout)
     native = NativeSync(wsdir)
